@@ -2,6 +2,7 @@
 EXTENDS NuSpaceSim
 MCConfigs == [mode : {"Diffuse", "Target"}, optical : BOOLEAN, radio : BOOLEAN,
               writeStages : BOOLEAN, survivors : BOOLEAN, stale : BOOLEAN]
+MCFreshConfigs == {c \in MCConfigs : ~c.stale}     \* no file of an earlier run (C14 does not speak about files)
 MCLiveConfigs == {c \in MCConfigs : c.writeStages /\ ~c.radio}
 (* the (configuration, crash point) pairs the driver realises on the real code: a failure / death at  *)
 (* every boundary k of the run, k = NBoundaries + 1 meaning "after the last boundary"                  *)
